@@ -13,6 +13,7 @@ NEXT Next
 CONSTANTS
   AllowDupStart = FALSE
   AllowSilentInit = FALSE
+  AllowRestartRace = FALSE
   AllowDoubleError = FALSE
   SInsts = {}
   SIds = {}
